@@ -24,7 +24,8 @@ def one(sid):
     meta = json.load(open(mp))
     ev = meta.setdefault("evaluation", {})
     own = meta.get("property") or sid.split("-")[0]
-    checks = [own] + [c for c in (ev.get("caught_by") or []) + list((ev.get("checks") or {}).keys()) if c != own]
+    checks = [own] + [c for c in (ev.get("caught_by") or []) + list((ev.get("checks") or {}).keys()) + list((ev.get("checks_quick") or {}).keys())
+                      + list(((ev.get("recheck") or {}).get("checks") or {}).keys()) if c != own]
     checks = list(dict.fromkeys(checks))
     wt = tempfile.mkdtemp(prefix="wt_recheck_")
     os.rmdir(wt)
